@@ -54,7 +54,7 @@ def collect_sites(repo, func):
                 out.append(Site(func, n, 'pop', norm(n)[:80], 'ValueError'))
             elif fn in ('base64.decodebytes', 'base64.decodestring', 'base64.b64decode'):
                 out.append(Site(func, n, 'conv', norm(n)[:80], 'binascii.Error'))
-            elif fn in ('datetime.date', 'datetime.datetime', 'datetime.timezone', 'datetime.timedelta', 'datetime.time'):
+            elif fn in ('datetime.date', 'datetime.datetime', 'datetime.timezone', 'datetime.time'):
                 out.append(Site(func, n, 'conv', norm(n)[:80], 'ValueError'))
             elif isinstance(n.func, ast.Attribute) and n.func.attr in ('groupdict', 'group', 'groups') \
                     and isinstance(n.func.value, ast.Name):
@@ -495,6 +495,9 @@ def judge_site(repo, J, site, ctx_assume, indent_pairing_ok=None):
             g = J.g_chars(site)
             if g:
                 return ('guarded', g)
+            g = _g_group(repo, J, site)
+            if g:
+                return ('guarded', g)
             return ('unguarded', getattr(site, '_why', 'no dominating test restricts the argument to the digits of the base'))
         if fn == 'chr':
             g = J.g_upper_bound(site, 0x10FFFF)
@@ -564,7 +567,27 @@ def judge_site(repo, J, site, ctx_assume, indent_pairing_ok=None):
                     p = par
             if isinstance(base, ast.Attribute) and (mod, base.attr) in STACK_BELIEFS:
                 return ('assumed', STACK_BELIEFS[(mod, base.attr)])
-        if isinstance(base, ast.Name) and kind == 'other':
+        # G-store: a store to the same element dominates the read / delete
+        same = [x for x in J.cfg.nodes if x.kind == 'stmt' and isinstance(x.ast, ast.Assign)
+                and any(norm(t) == norm(n) for t in x.ast.targets)]
+        ns = J.nodes_of(n)
+        if same and ns and all(J.cfg.guarded(x, nodes=same) for x in ns):
+            return ('guarded', 'G-store (%s assigned before)' % norm(n)[:40])
+        # G-index: i < len(X) on the true edge
+        kt = norm(key)
+
+        def lt_len(t, bt=bt, kt=kt):
+            if isinstance(t, ast.Compare) and len(t.ops) == 1:
+                l, r = norm(t.left), norm(t.comparators[0])
+                if l == kt and r == 'len(%s)' % bt and isinstance(t.ops[0], ast.Lt):
+                    return True
+                if r == kt and l == 'len(%s)' % bt and isinstance(t.ops[0], ast.Gt):
+                    return True
+            return None
+        edges = J.test_edges(lt_len)
+        if edges and J.guarded_by_edges(n, edges):
+            return ('guarded', 'G-index (%s < len(%s))' % (kt, bt))
+        if isinstance(base, ast.Name) and kind == 'other' and A.const_value(key) not in (0, -1):
             return ('assumed', 'subscript of a local computed value')
         return ('unguarded', 'subscript %s is not dominated by a membership / length test' % norm(n)[:50])
     # ---- pops
@@ -640,6 +663,74 @@ def judge_site(repo, J, site, ctx_assume, indent_pairing_ok=None):
             return ('guarded', 'not a regex match object')
         return ('unguarded', 'method call on a possibly-None match object')
     return ('unguarded', 'unclassified partial operation')
+
+
+def _g_group(repo, J, site):
+    """int(values['g'] [or 0]) / int(x) where x derives from a named group whose language is digits only."""
+    f = J.f
+    arg = site.node.args[0]
+    if isinstance(arg, ast.BoolOp) and isinstance(arg.op, ast.Or) and isinstance(arg.values[-1], ast.Constant) \
+            and isinstance(arg.values[-1].value, int):
+        arg = arg.values[0]
+    name = None
+    if isinstance(arg, ast.Subscript) and isinstance(arg.value, ast.Name) and A.const_str(arg.slice):
+        name, var = A.const_str(arg.slice), arg.value.id
+    elif isinstance(arg, ast.Name):
+        # x = values['g'][:k] ; x += '0'
+        for a in walk_function(f.node):
+            if isinstance(a, ast.Assign) and any(isinstance(t, ast.Name) and t.id == arg.id for t in a.targets):
+                v = a.value
+                if isinstance(v, ast.Subscript) and isinstance(v.slice, ast.Slice):
+                    v = v.value
+                if isinstance(v, ast.Subscript) and isinstance(v.value, ast.Name) and A.const_str(v.slice):
+                    name, var = A.const_str(v.slice), v.value.id
+        for a in walk_function(f.node):
+            if isinstance(a, ast.AugAssign) and isinstance(a.target, ast.Name) and a.target.id == arg.id:
+                if not (isinstance(a.op, ast.Add) and A.const_str(a.value) and A.const_str(a.value).isdigit()):
+                    return None
+    if name is None:
+        return None
+    # var = match.groupdict() of a class-level regex
+    pat = None
+    for a in walk_function(f.node):
+        if isinstance(a, ast.Assign) and any(isinstance(t, ast.Name) and t.id == var for t in a.targets) \
+                and isinstance(a.value, ast.Call) and isinstance(a.value.func, ast.Attribute) and a.value.func.attr == 'groupdict':
+            m = a.value.func.value
+            for b in walk_function(f.node):
+                if isinstance(b, ast.Assign) and isinstance(m, ast.Name) and any(isinstance(t, ast.Name) and t.id == m.id for t in b.targets) \
+                        and isinstance(b.value, ast.Call) and isinstance(b.value.func, ast.Attribute) \
+                        and b.value.func.attr in ('match', 'fullmatch') and isinstance(b.value.func.value, ast.Attribute):
+                    attr = b.value.func.value.attr
+                    found = repo.lookup(f.cls, attr) if f.cls else None
+                    if found and not isinstance(found[1], FuncInfo):
+                        v = found[1][-1]
+                        if isinstance(v, ast.Call) and v.args:
+                            pat = (A.const_str(v.args[0]), v)
+    if pat is None or pat[0] is None:
+        return None
+    from . import relang as RL
+    from . import rules_lang as RLG
+    flags = RLG.Langs._flags(pat[1])
+    alpha = RL.Alphabet(RL.points_of(pat[0], flags))
+    groups = RLG.group_languages(alpha, pat[0], flags)
+    if name not in groups:
+        return None
+    digits = RL.compile_regex(alpha, r'^[0-9]*$')
+    ok, w = RL.included(groups[name], digits)
+    if not ok:
+        return None
+    # emptiness: either the group cannot be empty, or a truthiness test of it dominates, or `or <int>` supplies a default
+    nonempty = not groups[name].nullable()
+    orig = site.node.args[0]
+    if isinstance(orig, ast.BoolOp):
+        nonempty = True
+    if not nonempty:
+        edges = J.g_truthy(ast.parse("%s['%s']" % (var, name), mode='eval').body)
+        if edges and J.guarded_by_edges(site.node, edges):
+            nonempty = True
+    if not nonempty:
+        return None
+    return 'G-group (named group %s captures digits only)' % name
 
 
 def _returns_arity(ret, func, arity):
